@@ -11,7 +11,7 @@ Lemma np_rbind {A B} (m : res A) (k : A -> res B) : np m -> (forall a, np (k a))
 Proof. destruct m; simpl; auto. Qed.
 Lemma np_rfinal g r : np r -> np (rfinal g r).
 Proof. destruct r as [[v s]| | | |]; simpl; auto. Qed.
-Lemma np_tolerate b r : np r -> np (tolerate b r).
+Lemma np_tolerate b o r : np r -> np (tolerate b o r).
 Proof. destruct r; simpl; auto. destruct (b && is_unknown e); simpl; auto. Qed.
 Lemma np_of_opres o st : np (of_opres o st).
 Proof. destruct o; simpl; auto. Qed.
@@ -59,7 +59,7 @@ Ltac np_step H :=
   match goal with
   | |- np (rbind _ _) => apply np_rbind; [|intros [? ?]]
   | |- np (rfinal _ _) => apply np_rfinal
-  | |- np (tolerate _ _) => apply np_tolerate
+  | |- np (tolerate _ _ _) => apply np_tolerate
   | |- np (of_opres _ _) => apply np_of_opres
   | |- np (fail _) => exact I
   | |- np (ROk _) => exact I
@@ -222,7 +222,7 @@ Qed.
 (* an unknown identifier as condition counts as falsy *)
 Theorem if_chain_unknown fuel st c b rest els n st1 :
   eval G fuel st c = RErr (EUnknown n) st1 ->
-  eval_if G (S fuel) st ((c, b) :: rest) els = eval_if G fuel st1 rest els.
+  eval_if G (S fuel) st ((c, b) :: rest) els = eval_if G fuel (with_stmt st1 (sstmt st)) rest els.
 Proof.
   intros E. rewrite eval_if_S. unfold eval_if_step. unfold eval in E. rewrite E. reflexivity.
 Qed.
@@ -248,7 +248,7 @@ Proof. intros E. rewrite eval_S. unfold eval_step. unfold eval in E. rewrite E. 
 
 Theorem bang_unknown_is_true fuel st lit e n st1 :
   eval G fuel st e = RErr (EUnknown n) st1 ->
-  eval G (S fuel) st (EPrefix lit [33] e) = ROk (VBool true, st1).
+  eval G (S fuel) st (EPrefix lit [33] e) = ROk (VBool true, with_stmt st1 (sstmt st)).
 Proof. intros E. rewrite eval_S. unfold eval_step. unfold eval in E. rewrite E. reflexivity. Qed.
 
 Lemma eval_infix_S fuel st op l r : eval_infix G (S fuel) st op l r = eval_infix_step (evals_at G fuel) st op l r.
@@ -288,10 +288,10 @@ Qed.
 
 (* ================= C05: failures are not swallowed ================= *)
 (* the only error the tolerant sites let through is an unknown identifier *)
-Theorem tolerate_spec b r :
-  tolerate b r =
+Theorem tolerate_spec b o r :
+  tolerate b o r =
   match r with
-  | RErr (EUnknown n) s => if b then ROk (VNil, s) else RErr (EUnknown n) s
+  | RErr (EUnknown n) s => if b then ROk (VNil, with_stmt s o) else RErr (EUnknown n) s
   | x => x
   end.
 Proof. destruct r as [a|e s| | |]; try reflexivity. destruct e; simpl; destruct b; reflexivity. Qed.
